@@ -104,7 +104,8 @@ def scope_pairing(chk: Check) -> None:
             chk.ob('PAIR-scope', f, okr, 'restore: the previous stack is re-installed (token reset, or a copy without its last element)', node=r_.ast, kind='pop-on-copy')
     cur = prog.func('processes.Process.current')
     rets = [r for r in ast.walk(cur.node) if isinstance(r, ast.Return) and r.value is not None and not (isinstance(r.value, ast.Constant) and r.value.value is None)]
-    chk.ob('PAIR-scope', cur, len(rets) == 1 and norm(rets[0].value) == 'PROCESS_STACK.get()[-1]', 'current() is the top of the stack', kind='current-is-top')
+    from ..rules import Resolver
+    chk.ob('PAIR-scope', cur, len(rets) == 1 and Resolver(cur).text(rets[0].value) == 'PROCESS_STACK.get()[-1]', 'current() is the top of the stack', kind='current-is-top')
 
 
 def scope_reachability(chk: Check) -> None:
